@@ -308,16 +308,17 @@ class Forcing:
     def reachable(self, bb):
         return bb in self.reach
 
-    def reach_from(self, bb):
-        """blocks reachable from bb along edges that are feasible under the forcing"""
+    def reach_from(self, bb, avoid=()):
+        """blocks reachable from bb along edges that are feasible under the forcing, not entering `avoid`"""
         if bb not in self.reach:
             return set()
+        avoid = set(avoid)
         seen = {bb}
         st = [bb]
         while st:
             x = st.pop()
             for (a, b2) in self.edges:
-                if a == x and b2 not in seen:
+                if a == x and b2 not in seen and b2 not in avoid:
                     seen.add(b2)
                     st.append(b2)
         return seen
